@@ -40,6 +40,8 @@ Checks(e) ==
     { <<"encode-exact", e.req = EncEnv(e.env)>>,
       <<"decode-enveloped-roundtrip", (IsEnv(e) /\ NameOK(e)) =>
            (e.denv.ok /\ e.denv.name = e.env.name /\ e.denv.ty = e.env.ty /\ e.denv.seq = e.env.seq /\ e.denv.body = e.env.body)>>,
+      <<"stream-header-roundtrip", (IsEnv(e) /\ NameOK(e)) =>
+           (e.senv.ok /\ e.senv.name = e.env.name /\ e.senv.ty = e.env.ty /\ e.senv.seq = e.env.seq /\ e.senv.body = e.env.body)>>,
       <<"accept-and-echo", (NameOK(e) /\ Match(e)) =>
            (Accepted(e, e.ra) /\ \A i \in 1..Len(e.st) : Accepted(e, e.st[i]))>>,
       <<"reject-wrong-type", (NameOK(e) /\ ~Match(e)) =>
